@@ -26,3 +26,71 @@ Theorem C10_var_table_extends :
   forall t vs vs' code, compile_head_arg t vs = (vs', code) -> exists ext, vs' = vs ++ ext.
 Proof. exact head_arg_extends. Qed.
 Print Assumptions C10_var_table_extends.
+
+(** ... and it executes as that term.  Running the head code of a clause
+    (opGetConst / opGetVar / opGetFunctor / opPop of vm.exec, [exec] of
+    Model/Machine.v) against the arguments of a goal IS unifying those arguments
+    with the head's arguments renamed by the activation's frame of fresh
+    variables ([inst]: the clause variable at position i of the clause's variable
+    table becomes the i-th variable of the frame): the resulting env has exactly
+    the solutions of the old env that make the goal's arguments equal to the
+    renamed head's (the fresh variables introduced for sub-terms being
+    existentially quantified: [ok_sound], [ok_complete]); when the run fails no
+    solution exists; and the machine continues with the body on exactly that env.
+    For every head, goal, env bounded by the fresh-variable counter, body, fuel. *)
+From PV Require Import Proofs.Unify Proofs.HeadExec.
+Theorem C10_head_code_is_unification :
+  forall name hargs cvsH hc, compile_head (Cmp name hargs) = (cvsH, hc) -> forallb wf_term hargs = true ->
+  forall (c : clause) ext rest, c_vars c = cvsH ++ ext -> c_code c = hc ++ rest ->
+  forall f gargs k e pid st,
+    List.length gargs = List.length hargs ->
+    0 < s_nextv st -> eb (s_nextv st) e -> poisoned e = false -> Forall (tb (s_nextv st)) gargs ->
+    let vb := fresh_from (s_nextv st) (List.length (c_vars c)) in
+    let nv := s_nextv st + Z.of_nat (List.length (c_vars c)) in
+    let head := map (inst (c_vars c) vb) hargs in
+    match run_get hc vb gargs [] e nv with
+    | GDone args' astack' e' nv' =>
+        ok_spec e e' nv nv' gargs head /\
+        run_thunk (S (List.length hc + f)) (ThClause c gargs k e pid) st = exec f rest vb k [] [] e' pid (bump st nv')
+    | GFail nv' =>
+        (forall s, sat s e -> map (apply s) gargs <> map (apply s) head) /\
+        run_thunk (S (List.length hc + f)) (ThClause c gargs k e pid) st = (PBool false, bump st nv')
+    | GStuck _ | GPoison _ => True
+    | GBad => False
+    end.
+Proof. exact clause_head_is_unification. Qed.
+Print Assumptions C10_head_code_is_unification.
+
+(** the frame renames the clause apart: distinct variables, none of them in the goal or the env *)
+Theorem C10_frame_renames_apart :
+  forall nv n, NoDup (fresh_from nv n) /\ Forall (fun z => nv <= z < nv + Z.of_nat n) (fresh_from nv n).
+Proof. exact fresh_from_apart. Qed.
+
+(** one head argument, any term *)
+Theorem C10_head_arg_is_unification : forall t, head_sem t.
+Proof. exact all_head_sem. Qed.
+Print Assumptions C10_head_arg_is_unification.
+
+(** non-vacuity: p(f(X), [X|T], a) against the goal p(Y, [1,2], Z) *)
+Open Scope string_scope.
+Example C10_head_exec_example :
+  let h := Cmp "p" [Cmp "f" [Var 0]; Cmp "." [Var 0; Var 1]; Atom "a"] in
+  let gargs := [Var 50; Cmp "." [Int 1; Cmp "." [Int 2; Atom "[]"]]; Var 51] in
+  match compile_head h with
+  | (cvs, hc) =>
+      match run_get hc (fresh_from 100 (List.length cvs)) gargs [] empty_env (100 + Z.of_nat (List.length cvs)) with
+      | GDone [] [] e' _ => poisoned e' = false /\
+                            map (walk e') gargs = [Cmp "f" [Int 1]; Cmp "." [Int 1; Cmp "." [Int 2; Atom "[]"]]; Atom "a"]
+      | _ => False
+      end
+  end.
+Proof. vm_compute. split; reflexivity. Qed.
+Example C10_head_exec_example_fails :
+  match compile_head (Cmp "p" [Cmp "." [Var 0; Cmp "." [Var 0; Atom "[]"]]]) with
+  | (cvs, hc) =>
+      match run_get hc (fresh_from 100 (List.length cvs)) [Cmp "." [Int 1; Cmp "." [Int 2; Atom "[]"]]] [] empty_env (100 + Z.of_nat (List.length cvs)) with
+      | GFail _ => True
+      | _ => False
+      end
+  end.
+Proof. vm_compute. exact I. Qed.
